@@ -326,6 +326,30 @@ func syncUnpriv(c *Ctx) error {
 	return nil
 }
 
+// dropRejectedDirs removes directories named "rj" (a mutation may have turned one of the rejected entries into a
+// directory) together with what is below them.
+func dropRejectedDirs(t model.Tree) model.Tree {
+	var out model.Tree
+	var pruned []string
+	for _, e := range t {
+		skip := false
+		for _, p := range pruned {
+			if strings.HasPrefix(e.Path, p+"/") {
+				skip = true
+			}
+		}
+		if skip {
+			continue
+		}
+		if e.Type == "dir" && (e.Path == "rj" || strings.HasSuffix(e.Path, "/rj")) {
+			pruned = append(pruned, e.Path)
+			continue
+		}
+		out = append(out, e)
+	}
+	return out
+}
+
 // addRejected returns a copy of t with up to three non-directories named "rj" added (root and random directories).
 func addRejected(r *rand.Rand, t model.Tree) model.Tree {
 	out := t.Clone()
@@ -569,6 +593,10 @@ func syncHistories(c *Ctx) error {
 			d := "metadata"
 			if c.Rand.Intn(7) == 0 {
 				d = "none"
+			}
+			if h.Filter == "rejectRJ" {
+				// the rejecting filter lets directories through: keep the name for non-directories only
+				next = dropRejectedDirs(next)
 			}
 			h.Hist = append(h.Hist, next)
 			h.Differs = append(h.Differs, d)
